@@ -170,10 +170,17 @@ def choose_picks(tier, seed, meta, space):
         for i, j in pairs:
             adj.setdefault(i, set()).add(j)
             adj.setdefault(j, set()).add(i)
-        chosen = [[i] for (i,) in singles] + rnd.sample(pairs, n_pairs)
+        # half of the pairs from the stratum where the comments of both forms stand in the same file (they interact through
+        # the attachment rules), half from the rest
+        inl = lambda i: "inl" in meta["forms"][i - 1]["surfaces"]
+        close = [t for t in pairs if inl(t[0]) and inl(t[1]) and meta["forms"][t[0] - 1]["file"] == meta["forms"][t[1] - 1]["file"]]
+        close_set = set(map(tuple, close))
+        far = [t for t in pairs if tuple(t) not in close_set]
+        chosen = [[i] for (i,) in singles] + rnd.sample(close, min(len(close), n_pairs // 2))
+        chosen += rnd.sample(far, n_pairs - (len(chosen) - len(singles)))
         seen = set()
         while len(seen) < n_triples:             # a set of three is in the space iff its three pairs are (TLC re-checks every pick)
-            i, j = rnd.choice(pairs)
+            i, j = rnd.choice(close if len(seen) % 2 else pairs)
             common = sorted(adj[i] & adj[j])
             if not common:
                 continue
@@ -267,22 +274,27 @@ def run_one(meta, pick, rr):
 
 
 def run_baseline(meta, present, style):
+    """The unsuppressed project: locations from the --template output, <symbol>s from --xml (joined on id and message)."""
     pick = {"present": present, "style": style, "fill": "comment", "nofail": []}
     root = vlib.mktmp("c23b")
     try:
         write_project(root, meta, pick, None)
         rc, out, err = vlib.run_cppcheck(run_args(meta, pick, None, root, xml_out=True), root, timeout=120)
+        rc2, out2, err2 = vlib.run_cppcheck(run_args(meta, pick, None, root), root, timeout=120)
     finally:
         shutil.rmtree(root, ignore_errors=True)
-    if rc != 0:
-        raise vlib.InfraError("baseline run failed rc=%s\n%s" % (rc, err[-1000:]))
-    findings = []
+    if rc != 0 or rc2 != 0:
+        raise vlib.InfraError("baseline run failed rc=%s/%s\n%s" % (rc, rc2, (err + err2)[-1000:]))
+    syms = {}
     for e in ET.fromstring(err).iter("error"):
-        locs = e.findall("location")
-        if not locs:
-            continue
-        findings.append({"id": e.get("id"), "file": locs[0].get("file"), "line": int(locs[0].get("line")), "col": int(locs[0].get("column")),
-                         "syms": [s.text for s in e.findall("symbol")]})
+        syms[(e.get("id"), e.get("msg"))] = [x.text for x in e.findall("symbol")]
+    findings = []
+    for f in projgen.parse_findings(err2):
+        if (f["id"], f["msg"]) not in syms:
+            raise vlib.InfraError("baseline: %s reported with --template but not with --xml" % f["key"])
+        findings.append({"id": f["id"], "file": f["file"], "line": f["line"], "col": f["col"], "syms": syms[(f["id"], f["msg"])]})
+    if len(findings) != len(syms):
+        raise vlib.InfraError("baseline: --xml and --template report different findings")
     return {"present": present, "style": style, "findings": findings}
 
 
@@ -348,6 +360,19 @@ def unit_violations(ubad):
     return viol
 
 
+def harness_exe():
+    """The harness is relinked only when the harness source or an object of the hooked build is newer than it."""
+    exe = os.path.join(vlib.BUILD, "harness", "suppress_harness")
+    src = os.path.join(vlib.VERIF, "harness", "suppress_harness.cpp")
+    try:
+        t = os.path.getmtime(exe)
+        if t > os.path.getmtime(src) and all(t > os.path.getmtime(o) for o in vlib.core_objects()):
+            return exe
+    except OSError:
+        pass
+    return vlib.build_harness("suppress_harness.cpp")
+
+
 # ------------------------------------------------------------------ main
 def main(tier, seed, replay=None):
     t0 = time.time()
@@ -355,12 +380,12 @@ def main(tier, seed, replay=None):
     work = vlib.mktmp("c23")
     if replay:
         return do_replay(replay, work)
-    exe = vlib.build_harness("suppress_harness.cpp")
+    exe = harness_exe()
     bg = concurrent.futures.ThreadPoolExecutor(max_workers=3)          # TLC steps next to the binary runs (at most 3 + laws)
     pool = concurrent.futures.ThreadPoolExecutor(max_workers=WORKERS)
     laws_f = bg.submit(tlc_laws, tier == "quick")
     meta, space, ucases = tlc_gen(work, tier == "thorough")
-    phase = {"gen": time.time() - t0}
+    phase = {"build+gen": time.time() - t0}
 
     def unit_level():
         uobs = os.path.join(work, "uobs.ndjson")
@@ -374,9 +399,10 @@ def main(tier, seed, replay=None):
     picks = choose_picks(tier, seed, meta, space)
     random.Random(seed).shuffle(picks)                  # any prefix is a sample of all strata (the run budget may cut the list)
     base_f = [pool.submit(run_baseline, meta, p, st) for p, st in baseline_specs(meta)]
-    budget = 110 if tier == "quick" else 2000           # seconds after which no further binary runs are started
+    budget = 100 if tier == "quick" else 2000           # seconds after which no further binary runs are started
+    budget = int(os.environ.get("C23_BUDGET", budget))
     # render / run / judge are pipelined chunk by chunk; quick: a small first chunk so that the binary runs start early
-    bounds = [0, 120, len(picks)] if tier == "quick" else list(range(0, len(picks), 2500)) + [len(picks)]
+    bounds = [0, 80, len(picks)] if tier == "quick" else list(range(0, len(picks), 2500)) + [len(picks)]
     chunks = [picks[a:b] for a, b in zip(bounds, bounds[1:]) if a < b]
     all_obs, all_rendered, bad = [], [], []
     verdicts = [0, 0, 0]
@@ -388,7 +414,7 @@ def main(tier, seed, replay=None):
         rendered = render_f.result()
         if t_runs is None:
             t_runs = time.time()
-            phase["render"] = t_runs - t0 - phase["gen"]
+            phase["render"] = t_runs - t0 - phase["build+gen"]
         if k + 1 < len(chunks) and time.time() < t_runs + 0.8 * budget:
             render_f = bg.submit(tlc_render, work, chunks[k + 1], str(k + 1))
         else:
@@ -456,7 +482,7 @@ def all_findings(meta, pick):
 def do_replay(path, work):
     payload = json.load(open(path))
     if "unit" in payload:
-        exe = vlib.build_harness("suppress_harness.cpp")
+        exe = harness_exe()
         _meta, _space, ucases = tlc_gen(work, False)
         uobs = os.path.join(work, "uobs.ndjson")
         rc, out, err = vlib.run([exe, ucases, uobs], timeout=1800)
